@@ -31,7 +31,9 @@ func FieldsOf(sn []*asset.Snapshot) Fields {
 }
 
 // FieldsOfBars extracts the columns of generated bars.
-func FieldsOfBars(b gen.Bars) Fields { return Fields{O: b.Open, H: b.High, L: b.Low, C: b.Close, V: b.Volume} }
+func FieldsOfBars(b gen.Bars) Fields {
+	return Fields{O: b.Open, H: b.High, L: b.Low, C: b.Close, V: b.Volume}
+}
 
 // Expect is the documented recommendation for one position; Exempt marks positions where the
 // compared quantities are equal within rounding or undefined.
